@@ -879,3 +879,151 @@ def r18_5_builder(ctx, prog, rule="R18.5"):
     paths, info = _paths(ctx, prog, b.path, "bld")
     for pa in paths:
         ctx.ob(rule, "build", "bld.0" in repr(pa.ret) or "self.0" in repr(pa.ret), "build returns %r" % (pa.ret,), b.where())
+
+
+# ------------------------------------------------------------------------------------------------
+# get_input_text: the text a MAC / CRC is computed over
+
+def r4_7_input_text(ctx, prog, rule="R4.7"):
+    ctx.rule(rule, "get_input_text(buffer, T): the search stops at the *first* attribute of type T (no attribute is examined "
+                   "after a match); the prefix end is updated only by non-matching attributes and the patched length only by "
+                   "the matching one; the result is buffer[..prefix + 20] with bytes 2..4 overwritten by that length - so "
+                   "attributes appended after the first T cannot change the text")
+    from ..cfg import cfg_of
+    fn = "stun_rs::raw::get_input_text"
+    paths, info = C.explore_fn(prog, fn, "x", [r"\{closure"])
+    body = info["body"]
+    ctx.fn(body)
+    n_ok = 0
+    bad = []
+    for pa in paths:
+        segs = shared.segments(pa.log, body.path)
+        matched_at = None
+        for i, seg in enumerate(segs):
+            nx = [e for e in seg if e[0] == "call" and re.search(r"RawAttributesIter.*::next$", e[1])]
+            if matched_at is not None and nx:
+                bad.append("an attribute is examined after the first match (iteration %d after match in %d)" % (i, matched_at))
+            for e in seg:
+                if e[0] == "choice" and str(e[1]).startswith("cmp:Eq") and e[2] == 1:
+                    matched_at = i
+        r = C.expr_of(pa, pa.ret)
+        if isinstance(r, tuple) and r[0] == "Result::Ok":
+            n_ok += 1
+            if matched_at is None:
+                bad.append("Ok returned without a matching attribute")
+            cb = [C.expr_of(pa, e[2]) for e in pa.calls if re.search(r"check_buffer_boundaries$", e[1])]
+            tv = [C.expr_of(pa, e[2]) for e in pa.calls if re.search(r"slice::<impl \[.*\]>::to_vec$", e[1])]
+            wr = [C.expr_of(pa, e[2]) for e in pa.calls if re.search(r"ByteOrder>::write_u16$", e[1])]
+            okp = len(cb) == 1 and cb[0][0] == "top:buffer" and (cb[0][1] == 20 or (isinstance(cb[0][1], tuple) and cb[0][1][0] == "op:Add" and 20 in cb[0][1][1:]))
+            okv = len(tv) == 1 and isinstance(tv[0][0], tuple) and "top:buffer" in repr(tv[0][0]) and repr(("RangeTo", cb[0][1] if cb else None)) in repr(tv[0][0])
+            okw = len(wr) == 1 and repr(("Range", 2, 4)) in repr(wr[0][0]) and "pos" in repr(wr[0][1])
+            if not (okp and okv and okw):
+                bad.append("result is not buffer[..prefix+20] with length patched at 2..4: check %s, to_vec %s, write %s" % (
+                    [show(x)[:50] for x in cb], [show(x)[:60] for x in tv], [show(x)[:60] for x in wr]))
+    ctx.ob(rule, "input-text:paths", not bad and n_ok >= 2, "; ".join(sorted(set(bad))[:2]) or "%d paths, %d successful: search stops at the first match" % (len(paths), n_ok),
+           info["where"])
+    # structure of the loop: which edge of the type comparison updates which variable
+    cfg = cfg_of(body)
+    heads = [c.block for c in body.calls() if re.search(r"RawAttributesIter.*::next$", c.callee_path)]
+    if len(heads) != 1:
+        ctx.anchor_missing(rule, "get_input_text: exactly one RawAttributesIter::next call (%d)" % len(heads))
+        return
+    head = heads[0]
+    names = {}
+    for l in range(len(body.locals)):
+        nme = body.debug_name(l)
+        if nme in ("pos", "len"):
+            names.setdefault(nme, []).append(l)
+    pos_l = names.get("pos", [])
+    len_l = [l for l in names.get("len", []) if "Option" in body.tystr(body.locals[l]["ty"])]
+    if len(pos_l) != 1 or len(len_l) != 1:
+        ctx.anchor_missing(rule, "get_input_text: locals pos / len (found %s / %s)" % (pos_l, len_l))
+        return
+    # the switch that compares attr_type with raw_attr.attr_type: a switch inside the loop on an Eq of two u16
+    sw = None
+    for bi, blk in enumerate(body.blocks):
+        t = blk["term"]
+        if t["k"] != "switch" or blk["cleanup"]:
+            continue
+        for st in blk["stmts"]:
+            if st["k"] == "assign" and st["rv"]["k"] == "binop" and st["rv"]["op"] == "Eq" and \
+                    t["discr"]["k"] in ("copy", "move") and t["discr"]["place"]["l"] == st["place"]["l"]:
+                sw = (bi, t)
+    if sw is None:
+        ctx.anchor_missing(rule, "get_input_text: the attribute type comparison")
+        return
+    bi, t = sw
+    false_t = [tg for v, tg in t["targets"] if int(v) == 0]
+    true_t = t["otherwise"] if false_t else None
+    if not false_t:
+        ctx.anchor_missing(rule, "get_input_text: comparison edges")
+        return
+    false_t = false_t[0]
+    on_true = cfg.reachable(true_t, cut_blocks=[head])
+    on_false = cfg.reachable(false_t, cut_blocks=[head])
+
+    def assigns(local):
+        out = set()
+        for b2, blk in enumerate(body.blocks):
+            if blk["cleanup"]:
+                continue
+            for st in blk["stmts"]:
+                if st["k"] == "assign" and st["place"]["l"] == local and not st["place"]["p"]:
+                    out.add(b2)
+        return out
+    after_cmp = on_true | on_false          # the rest of an iteration (and, for an edge that leaves the loop, what follows)
+    a_pos = assigns(pos_l[0]) & after_cmp
+    a_len = assigns(len_l[0]) & after_cmp
+    ok1 = bool(a_len) and a_len <= on_true and not (a_len & on_false)
+    ok2 = bool(a_pos) and a_pos <= on_false and not (a_pos & on_true)
+    # after a match the loop head is not reached again
+    ok3 = head not in cfg.reachable(true_t)
+    ctx.ob(rule, "input-text:loop-structure", ok1 and ok2 and ok3,
+           "length set only on the match edge: %s; prefix end advanced only on the non-match edge: %s; the match edge leaves the loop: %s"
+           % (ok1, ok2, ok3), body.where())
+
+
+def r18_6_unknown_new(ctx, prog, rule="R18.6"):
+    ctx.rule(rule, "Unknown::new(type, data) keeps the data exactly as given: Some(bytes) -> Some(copy of the bytes) whatever "
+                   "their length, None -> None; no filtering or conditional call sits between the argument and the field; "
+                   "attribute_data() returns the stored field")
+    U = "stun_rs::attributes::unknown::Unknown"
+    paths, info = C.explore_fn(prog, U + "::new", "x", [r"\{closure"])
+    ctx.fn(info["body"])
+    seen = {}
+    allowed = re.compile(r"Into<.*>>::into$|^T::into$|::into$")
+    for pa in paths:
+        given = None
+        for nme, v in pa.choices:
+            if str(nme).startswith("variant(ret:into@"):
+                given = v
+        r = C.expr_of(pa, pa.ret)
+        extra = [C.short(e[1]) for e in pa.calls if not allowed.search(e[1])]
+        gs = pa.guards()
+        stored = r[2] if isinstance(r, tuple) and r[0] == "Unknown" and len(r) == 3 else "?"
+        st = "Some" if isinstance(stored, tuple) and stored[0] == "Option::Some" else ("None" if stored == "Option::None" else "?")
+        ok = given in ("Some", "None") and st == given and not extra and not gs and isinstance(r, tuple) and r[1] == "top:attr_type"
+        k = "given=%s" % given
+        if k not in seen or not ok:
+            seen[k] = (ok, "data %s -> stored %s; extra calls %s; comparisons %s" % (given, st, extra, [g[:1] for g in gs]), pa)
+    for k, (ok, why, pa) in sorted(seen.items()):
+        ctx.ob(rule, "unknown-new:%s" % k, ok, why, info["where"], replay=None if ok else pa.describe())
+    ctx.floor(rule, "Unknown::new cases", len(seen), 2)
+    # the two Option::map closures only convert (Vec::from, Arc::new): they are passed as function items, not closures with logic
+    body = info["body"]
+    cl = [b for b in prog.bodies.values() if b.path.startswith(U + "::new::{closure")]
+    ctx.ob(rule, "unknown-new:no-closures", not cl, "closures defined in Unknown::new: %s" % [b.path.split("::")[-1] for b in cl], body.where())
+    maps = [c for c in body.calls() if re.search(r"Option::<.*>::(map|filter|and_then|take_if|then|then_some|zip|xor|or|or_else|filter_map)", c.callee_path)]
+    okm = all(re.search(r"Option::<.*?>::(\w+)", c.callee_path).group(1) == "map" for c in maps)
+    ctx.ob(rule, "unknown-new:only-map", okm, "Option combinators used: %s" % sorted({re.search(r"Option::<.*?>::(\w+)", c.callee_path).group(1) for c in maps}), body.where())
+    b = prog.body(U + "::attribute_data", required=False)
+    if b is None:
+        ctx.anchor_missing(rule, "Unknown::attribute_data")
+        return
+    paths, info = C.explore_fn(prog, b.path, "u", [r"\{closure"])
+    for pa in paths:
+        r = C.expr_of(pa, pa.ret)
+        txt = repr(r) + repr([C.expr_of(pa, e[2]) for e in pa.calls])
+        none_case = r == "Option::None" and pa.choice(r"^variant\(u\.attr_data\)$") == "None"
+        ctx.ob(rule, "attribute_data:%s" % ("None" if none_case else "Some"), ("u.attr_data" in txt or none_case) and not pa.guards(),
+               "attribute_data() derives from %s" % ("u.attr_data" if "u.attr_data" in txt else ("the empty field" if none_case else txt[:80])), info["where"])
